@@ -1002,9 +1002,56 @@ func (ex *Exec) execBlock(fr *Frame, st *State, b *ssa.BasicBlock, rets *[]retRe
 	return nil
 }
 
+// privateLocalArray: a non-escaping local array that is only read and written element-wise
+// or as a whole (never sliced, never passed by address): it can live in a local cell, where
+// loop heads and calls of unknown effect do not touch it.
+func privateLocalArray(x *ssa.Alloc) bool {
+	if x.Heap || x.Referrers() == nil {
+		return false
+	}
+	for _, r := range *x.Referrers() {
+		switch u := r.(type) {
+		case *ssa.DebugRef:
+		case *ssa.Store:
+			if u.Addr != ssa.Value(x) {
+				return false
+			}
+		case *ssa.UnOp:
+			if u.Op != token.MUL {
+				return false
+			}
+		case *ssa.IndexAddr:
+			if u.X != ssa.Value(x) || u.Referrers() == nil {
+				return false
+			}
+			if _, nested := u.Type().(*types.Pointer).Elem().Underlying().(*types.Array); nested {
+				return false
+			}
+			for _, rr := range *u.Referrers() {
+				switch w := rr.(type) {
+				case *ssa.DebugRef:
+				case *ssa.Store:
+					if w.Addr != ssa.Value(u) {
+						return false
+					}
+				case *ssa.UnOp:
+					if w.Op != token.MUL {
+						return false
+					}
+				default:
+					return false
+				}
+			}
+		default:
+			return false
+		}
+	}
+	return true
+}
+
 func (ex *Exec) execAlloc(fr *Frame, st *State, x *ssa.Alloc) {
 	et := x.Type().(*types.Pointer).Elem()
-	if at, ok := et.Underlying().(*types.Array); ok {
+	if at, ok := et.Underlying().(*types.Array); ok && !(privateLocalArray(x)) {
 		// arrays live in the element family from the start, so that slicing them aliases
 		r := st.allocRef()
 		names, sorts := elemFamilies(at.Elem())
